@@ -653,7 +653,8 @@ def pure_info(ctx, T):
         w, h = rng.choice([(256, 256), (500, 400), (333, 177), (64, 200), (1, 1)])
         res = rng.choice([0.125, 0.5, 1.0, 10.0, 2.5])
         x0, y0 = dy(rng, -1000, 1000), dy(rng, -1000, 1000)
-        bb = (x0, y0, x0 + w * res, y0 + h * res)
+        yres = res * rng.choice([1, 1, 2, 0.5, 0.25, 3])      # WMS allows non-square pixels
+        bb = (x0, y0, x0 + w * res, y0 + h * yres)
         pos = (rng.randrange(0, w), rng.randrange(0, h))
         q = InfoQuery(bb, (w, h), req_srs, pos, 'text/plain')
         cl = WMSInfoClient(WMS111FeatureInfoRequest(url='http://up/?', param={'layers': 'a'}), supported_srs=OneSRS(info_srs))
@@ -671,7 +672,8 @@ def pure_info(ctx, T):
         if iw <= 0 or ih <= 0:
             ctx.count('info:degenerate_size')
             continue
-        c = (frac(bb[0]) + pos[0] * frac(res), frac(bb[3]) - pos[1] * frac(res))
+        c = (frac(bb[0]) + pos[0] * frac(res), frac(bb[3]) - pos[1] * frac(yres))
+        ctx.count('info:' + ('square_pixels' if yres == res else 'non_square_pixels'))
         tc = (frac(ax) * c[0] + frac(bx), frac(ay) * c[1] + frac(by))
         rx, ry = (ib[2] - ib[0]) / iw, (ib[3] - ib[1]) / ih
         up = (ib[0] + out.pos[0] * rx, ib[3] - out.pos[1] * ry)
@@ -749,6 +751,47 @@ def pure_axis(ctx, T):
             ctx.fail('axis-internal', 'client bbox %r (%s, %s) is held internally as %r' % (wire, cvn, code, internal), desc)
         if rect(uv, up) != rect(cv, wire) or up_code != code:
             ctx.fail('axis-upstream', 'client bbox %r (%s) is sent upstream as %r (%s), SRS %s' % (wire, cvn, up, uvn, code), desc)
+
+
+def pure_srs(ctx, T):
+    """The external transformation T of the theorems is PROJ: SRS.transform_to / transform_bbox_to must give what pyproj
+    gives for the same pair of CRS (projected, geographic, geographic on another datum), for points and point lists."""
+    import pyproj
+    from mapproxy.srs import SRS
+    rng = ctx.rng
+    codes = ['EPSG:4326', 'EPSG:3857', 'EPSG:4314', 'EPSG:4230', 'EPSG:4258', 'EPSG:25832', 'EPSG:31467', 'CRS:84', 'EPSG:900913']
+    trans = {}
+    for _ in range(ctx.n(120, 600)):
+        a, b = rng.choice(codes), rng.choice(codes)
+        lon, lat = rng.uniform(6, 14), rng.uniform(47, 55)
+
+        def crs(c):
+            return {'CRS:84': 'EPSG:4326', 'EPSG:900913': 'EPSG:3857'}.get(c, c)
+        if (a, b) not in trans:
+            trans[(a, b)] = pyproj.Transformer.from_crs(crs(a), crs(b), always_xy=True)
+            trans[('EPSG:4326', a)] = pyproj.Transformer.from_crs('EPSG:4326', crs(a), always_xy=True)
+        p = trans[('EPSG:4326', a)].transform(lon, lat)
+        want = trans[(a, b)].transform(*p)
+        st, got = call(lambda: SRS(a).transform_to(SRS(b), p))
+        st2, got2 = call(lambda: list(SRS(a).transform_to(SRS(b), [p, p]))[1])
+        d = 1e-6 * rng.choice([1, 100, 10000])
+        bb = (p[0], p[1], p[0] + d * max(1.0, abs(p[0])), p[1] + d * max(1.0, abs(p[1])))
+        st3, gotb = call(lambda: SRS(a).transform_bbox_to(SRS(b), bb))
+        ctx.case(('srs', a, b, p), a != b, {'fn': 'SRS.transform_to', 'from': a, 'to': b, 'point': p, 'result': got} if len(ctx.samples) < 6 else None)
+        ctx.count('srs:%s' % ('same' if a == b else 'geographic-geographic' if SRS(a).is_latlong and SRS(b).is_latlong else 'other'))
+        desc = {'from': a, 'to': b, 'point': p, 'mapproxy': got, 'pyproj': want}
+        if st != 'ok' or st2 != 'ok' or st3 != 'ok':
+            ctx.fail('srs-raises', 'SRS(%s).transform_to(%s) raised %r %r %r' % (a, b, got, got2, gotb), desc)
+            continue
+        tol = 1e-9 * max(1.0, abs(want[0]), abs(want[1]))
+        if any(abs(g[0] - want[0]) > tol or abs(g[1] - want[1]) > tol for g in (got, got2)):
+            ctx.fail('srs-transform', 'SRS(%s).transform_to(SRS(%s), %r) = %r, PROJ gives %r' % (a, b, p, got, want), desc)
+            continue
+        corners = [trans[(a, b)].transform(x, y) for x in (bb[0], bb[2]) for y in (bb[1], bb[3])]
+        wb = (min(c[0] for c in corners), min(c[1] for c in corners), max(c[0] for c in corners), max(c[1] for c in corners))
+        ext = max(wb[2] - wb[0], wb[3] - wb[1])
+        if any(abs(g - w) > 0.02 * ext + tol for g, w in zip(gotb, wb)):
+            ctx.fail('srs-transform', 'SRS(%s).transform_bbox_to(SRS(%s), %r) = %r, the transformed corners span %r' % (a, b, bb, gotb, wb), desc)
 
 
 def pure_client(ctx, T):
@@ -859,7 +902,8 @@ def run_pure(ctx, T):
     steps = [('mosaic', lambda: pure_mosaic(ctx, T, grids)), ('meta', lambda: pure_meta(ctx, T, grids)),
              ('lin', lambda: pure_lin(ctx, T)), ('subextent', lambda: pure_subextent(ctx, T)),
              ('transform', lambda: pure_transform(ctx, T)), ('info', lambda: pure_info(ctx, T)), ('axis', lambda: pure_axis(ctx, T)),
-             ('infopos', lambda: pure_info_pos(ctx, T)), ('client', lambda: pure_client(ctx, T))]
+             ('infopos', lambda: pure_info_pos(ctx, T)), ('client', lambda: pure_client(ctx, T)),
+             ('srs', lambda: pure_srs(ctx, T))]
     for name, f in steps:
         try:
             f()
@@ -1606,6 +1650,78 @@ def e2e_featureinfo(ctx, T, grid_defs):
         http.HTTPClient.open = orig_open
 
 
+def e2e_featureinfo_transformed(ctx):
+    """GetFeatureInfo whose SRS the upstream does not support (WMSInfoClient._get_transformed_query with the real PROJ):
+    square and non-square request pixels, projected / geographic / geographic on another datum on either side.  Oracle:
+    the ground point of the forwarded pixel is the clicked ground point (transformed with pyproj directly) within one
+    upstream pixel."""
+    import pyproj
+    import mapproxy.client.http as http
+    from mapproxy.srs import SRS
+    rng = ctx.rng
+    up = Upstream()
+    orig_open = http.HTTPClient.open
+    http.HTTPClient.open = lambda self, url, data=None, method=None: up.open(url, data, method)
+    pairs = [('EPSG:3857', 'EPSG:4326'), ('EPSG:4314', 'EPSG:4326'), ('EPSG:4326', 'EPSG:4314'), ('EPSG:25832', 'EPSG:4326'),
+             ('EPSG:4326', 'EPSG:3857'), ('EPSG:4230', 'EPSG:4326'), ('EPSG:31467', 'EPSG:4314')]
+    try:
+        for ci, (csrs, usrs) in enumerate(pairs[:ctx.n(7, 7)]):
+            upv = ['1.1.1', '1.3.0'][ci % 2]
+            conf = {
+                'services': {'wms': {'srs': sorted(set([csrs, usrs, 'EPSG:4326'])), 'image_formats': ['image/png'], 'md': {'title': 't'}}},
+                'layers': [{'name': 'lyr', 'title': 'lyr', 'sources': ['src']}],
+                'sources': {'src': {'type': 'wms', 'req': {'url': 'http://up/wms', 'layers': 'a'}, 'supported_srs': [usrs],
+                                    'wms_opts': {'version': upv, 'featureinfo': True}}},
+            }
+            try:
+                app, d = build_app(ctx, conf)
+            except Exception as e:  # noqa
+                ctx.fail('e2e:config', 'make_wsgi_app failed for a valid configuration: %r' % (e,), {'conf': conf})
+                continue
+            from_ll = pyproj.Transformer.from_crs('EPSG:4326', csrs, always_xy=True)
+            to_up = pyproj.Transformer.from_crs(csrs, usrs, always_xy=True)
+            ne = bool(SRS(csrs).is_axis_order_ne)
+            for ri in range(ctx.n(6, 24)):
+                lon, lat = rng.uniform(6.5, 13.5), rng.uniform(47.5, 54.5)
+                x0, y0 = from_ll.transform(lon, lat)
+                size = rng.choice([(256, 256), (600, 300), (333, 500)])
+                unit = 1.0 if not SRS(csrs).is_latlong else 1e-5
+                xres = unit * rng.choice([3.0, 10.0, 40.0])
+                yres = xres * rng.choice([1.0, 1.0, 2.0, 0.5, 1.7])
+                bbox = (x0, y0, x0 + size[0] * xres, y0 + size[1] * yres)
+                pos = (rng.randrange(size[0]), rng.randrange(size[1]))
+                version = rng.choice(['1.1.1', '1.3.0'])
+                pk = ('I', 'J') if version == '1.3.0' else ('X', 'Y')
+                url = wms_url(version, 'lyr', bbox, size, csrs, ne, '&QUERY_LAYERS=lyr&INFO_FORMAT=text/plain&%s=%d&%s=%d' % (pk[0], pos[0], pk[1], pos[1]))
+                url = url.replace('REQUEST=GetMap', 'REQUEST=GetFeatureInfo')
+                up.requests = []
+                rep = {'conf': conf, 'request': url}
+                try:
+                    resp = app.get(url, expect_errors=True)
+                except Exception as e:  # noqa
+                    ctx.fail('fi:exception', 'request raised %r' % (e,), rep)
+                    continue
+                fis = [r for r in up.requests if 'pos' in r]
+                ctx.case(('fi-transformed', csrs, usrs, bbox, size, pos, version, upv), True,
+                         {'request': url, 'upstream': [r['url'] for r in fis][:1]} if ri == 0 else None)
+                ctx.count('fi:transformed %s->%s,%s' % (csrs, usrs, 'square' if xres == yres else 'non-square'))
+                if resp.status_int != 200 or len(fis) != 1:
+                    ctx.fail('fi:not-forwarded', 'feature info request answered %s with %d upstream requests: %s' % (resp.status, len(fis), resp.text[:200]), rep)
+                    continue
+                r = fis[0]
+                rep['upstream'] = r['url']
+                c = (bbox[0] + pos[0] * xres, bbox[3] - pos[1] * yres)
+                tc = to_up.transform(*c)
+                urx, ury = (r['bbox'][2] - r['bbox'][0]) / r['size'][0], (r['bbox'][3] - r['bbox'][1]) / r['size'][1]
+                uc = (r['bbox'][0] + r['pos'][0] * urx, r['bbox'][3] - r['pos'][1] * ury)
+                if r['srs'] != usrs or abs(uc[0] - tc[0]) > urx or abs(uc[1] - tc[1]) > ury:
+                    ctx.fail('fi:transformed-wrong-point', 'clicked pixel %r = ground point %r (%s) = %r (%s); upstream asked for %r (pixel %r of %r, %s): '
+                             '%.1f / %.1f upstream pixels away' % (pos, c, csrs, tc, usrs, uc, r['pos'], r['bbox'], r['srs'],
+                                                                   (uc[0] - tc[0]) / urx, (uc[1] - tc[1]) / ury), rep)
+    finally:
+        http.HTTPClient.open = orig_open
+
+
 def e2e_reprojected(ctx):
     """EPSG:3857 <-> EPSG:4326: cache in one SRS, request in the other (MESH path of ImageTransformer), and a WMS
     source that only supports the other SRS (source-side reprojection).  Oracle only (PROJ is not modelled)."""
@@ -1618,11 +1734,12 @@ def e2e_reprojected(ctx):
     http.HTTPClient.open = lambda self, url, data=None, method=None: up.open(url, data, method)
     to4326 = pyproj.Transformer.from_crs('EPSG:3857', 'EPSG:4326', always_xy=True)
     to3857 = pyproj.Transformer.from_crs('EPSG:4326', 'EPSG:3857', always_xy=True)
+    TR = {('EPSG:3857', 'EPSG:4326'): to4326, ('EPSG:4326', 'EPSG:3857'): to3857}
     worst_all = 0.0
     try:
-        for ci in range(ctx.n(5, 20)):
+        for ci in range(ctx.n(7, 28)):
             variant = ['request-4326-on-3857-cache', 'source-4326-for-3857-cache', 'request-3857-on-4326-cache', 'direct-source-4326',
-                       'deep-zoom-4326-cache'][ci % 5]
+                       'deep-zoom-4326-cache', 'request-4314-on-4326-cache', 'source-4314-for-4326-cache'][ci % 7]
             origin = rng.choice(['ll', 'ul'])
             ms = rng.choice([[1, 1], [2, 2], [4, 4]])
             buf = rng.choice([0, 20])
@@ -1631,6 +1748,11 @@ def e2e_reprojected(ctx):
                 grid = {'srs': 'EPSG:4326', 'bbox': [-180, -90, 180, 90], 'origin': origin, 'tile_size': [256, 256],
                         'res': [0.703125 / 2 ** k for k in range(10)]}
                 gsrs, rsrs = 'EPSG:4326', 'EPSG:3857'
+            elif variant in ('request-4314-on-4326-cache', 'source-4314-for-4326-cache'):
+                # two geographic SRS on different datums (DHDN / WGS84): a shift of 100 - 200 m, nothing else
+                grid = {'srs': 'EPSG:4326', 'bbox': [-180, -90, 180, 90], 'origin': origin, 'tile_size': [256, 256],
+                        'res': [0.703125 / 2 ** k for k in range(19)]}
+                gsrs, rsrs = 'EPSG:4326', ('EPSG:4314' if variant.startswith('request') else 'EPSG:4326')
             elif variant == 'deep-zoom-4326-cache':
                 # centimetre resolutions in degrees: every digit of the coordinates matters
                 grid = {'srs': 'EPSG:4326', 'bbox': [-180, -90, 180, 90], 'origin': origin, 'tile_size': [256, 256],
@@ -1642,7 +1764,7 @@ def e2e_reprojected(ctx):
                         'res': [2 * m / 256 / 2 ** k for k in range(12)]}
                 gsrs, rsrs = 'EPSG:3857', 'EPSG:4326'
             conf = {
-                'services': {'wms': {'srs': ['EPSG:4326', 'EPSG:3857'], 'image_formats': ['image/png'], 'md': {'title': 't'}}},
+                'services': {'wms': {'srs': ['EPSG:4326', 'EPSG:3857', 'EPSG:4314'], 'image_formats': ['image/png'], 'md': {'title': 't'}}},
                 'layers': [{'name': 'lyr', 'title': 'lyr', 'sources': ['c1']}],
                 'caches': {'c1': {'grids': ['g1'], 'sources': ['src'], 'format': 'image/png', 'meta_size': ms, 'meta_buffer': buf}},
                 'sources': {'src': {'type': 'wms', 'req': {'url': 'http://up/wms', 'layers': 'a'}, 'wms_opts': {'version': upv}}},
@@ -1652,6 +1774,9 @@ def e2e_reprojected(ctx):
             if variant == 'source-4326-for-3857-cache':
                 conf['sources']['src']['supported_srs'] = ['EPSG:4326']
                 up_srs, rsrs = 'EPSG:4326', 'EPSG:3857'
+            elif variant == 'source-4314-for-4326-cache':
+                conf['sources']['src']['supported_srs'] = ['EPSG:4314']
+                up_srs = 'EPSG:4314'
             elif variant == 'direct-source-4326':
                 conf['layers'][0]['sources'] = ['src']
                 conf['sources']['src']['supported_srs'] = ['EPSG:4326']
@@ -1666,7 +1791,11 @@ def e2e_reprojected(ctx):
                 # a request somewhere in Europe / North America, a few hundred metres to a few hundred km wide
                 lon, lat = rng.uniform(-120, 40), rng.uniform(-55, 65)
                 size = rng.choice([(256, 256), (300, 200), (400, 400)])
-                if variant == 'deep-zoom-4326-cache':
+                if variant in ('request-4314-on-4326-cache', 'source-4314-for-4326-cache'):
+                    lon, lat = rng.uniform(6, 14), rng.uniform(47.5, 54.5)
+                    rdeg = rng.choice([1e-5, 3e-5, 1e-4])
+                    bbox = (lon, lat, lon + size[0] * rdeg, lat + size[1] * rdeg)
+                elif variant == 'deep-zoom-4326-cache':
                     lvl = rng.choice([21, 22, 23, 24])
                     rdeg = 0.703125 / 2 ** lvl * rng.choice([1.0, 1.0, 0.8, 1.3])
                     if rng.random() < 0.5:
@@ -1684,7 +1813,7 @@ def e2e_reprojected(ctx):
                     x, y = to3857.transform(lon, lat)
                     rm = rng.choice([10.0, 100.0, 1000.0, 5000.0])
                     bbox = (x, y, x + size[0] * rm, y + size[1] * rm)
-                ne = (rsrs == 'EPSG:4326')
+                ne = rsrs in ('EPSG:4326', 'EPSG:4314')
                 version = rng.choice(['1.1.1', '1.3.0'])
                 url = wms_url(version, 'lyr', bbox, size, rsrs, ne)
                 # cell: half an output pixel, measured in the SRS of the upstream
@@ -1692,7 +1821,7 @@ def e2e_reprojected(ctx):
                     to_up = None
                     cell = (bbox[2] - bbox[0]) / size[0] / 2.0
                 else:
-                    tr = to4326 if up_srs == 'EPSG:4326' else to3857
+                    tr = TR.get((rsrs, up_srs)) or TR.setdefault((rsrs, up_srs), pyproj.Transformer.from_crs(rsrs, up_srs, always_xy=True))
                     to_up = lambda X, Y, tr=tr: tr.transform(X, Y)   # noqa
                     cx, cy = (bbox[0] + bbox[2]) / 2, (bbox[1] + bbox[3]) / 2
                     px = (bbox[2] - bbox[0]) / size[0]
@@ -1724,7 +1853,7 @@ def e2e_reprojected(ctx):
                 up_res = max(max((r['bbox'][2] - r['bbox'][0]) / r['size'][0], (r['bbox'][3] - r['bbox'][1]) / r['size'][1]) for r in maps)
                 # the mesh approximation may deviate by up to one pixel by design (max_px_err); a source-side reprojection
                 # is followed by a second resampling from the cache level to the output
-                stages = {'source-4326-for-3857-cache': 2, 'deep-zoom-4326-cache': 0}.get(variant, 1) + (1 if buf else 0)
+                stages = {'source-4326-for-3857-cache': 2, 'source-4314-for-4326-cache': 2, 'deep-zoom-4326-cache': 0}.get(variant, 1) + (1 if buf else 0)
                 worst = pixel_oracle(ctx, up, resp.body, bbox, size, up_res, None, to_up, rep, 'e2e:' + variant, tol_px=1.5,
                                      stages=stages)
                 if worst is not None:
@@ -1789,6 +1918,7 @@ def run(ctx):
         ctx.problem('harness', 'corpus replay could not run: %r' % (e,), traceback.format_exc())
     grid_defs = run_pure(ctx, T)
     for name, f in [('same_srs', lambda: e2e_same_srs(ctx, T, grid_defs)), ('featureinfo', lambda: e2e_featureinfo(ctx, T, grid_defs)),
+                    ('featureinfo_transformed', lambda: e2e_featureinfo_transformed(ctx)),
                     ('reprojected', lambda: e2e_reprojected(ctx))]:
         try:
             f()
